@@ -7,7 +7,7 @@ from . import common, cons, hand, hist, place, universe, xt
 
 PID = "C03"
 FORMS = ["py", "py-args", "nd", "ndF", "ndS", "cap", "xobj-other", "xobj-ctx", "xobj-nested", "xobj-slack", "ref-same", "ref-foreign", "xobj-view", "xobj-nested-view", "xobj-capslack", "xobj-twin"] + cons.LEN
-PL = ["dirtyhole", "dirtyhole2", "hole", "explicit", "explicit-i8", "ba-hole", "grown", "al64"]
+PL = ["dirtyhole", "dirtyhole2", "hole", "explicit", "explicit-i8", "explicit-al16", "ba-hole", "grown", "al64"]
 
 
 def describe(tier):
